@@ -247,6 +247,10 @@ func (b *RedisBackend) Put(path string, data []byte) error {
 	return err
 }
 
+// redisGlobEscaper escapes the characters that are special in Redis glob-style patterns (SCAN ... MATCH):
+// the root directory is matched literally, it may contain characters like '[' or '*'.
+var redisGlobEscaper = strings.NewReplacer(`\`, `\\`, `*`, `\*`, `?`, `\?`, `[`, `\[`, `]`, `\]`)
+
 // ListAll enumerates all paths currently stored.
 // The paths are returned in lexicographical order.
 func (b *RedisBackend) ListAll() ([]string, error) {
@@ -255,7 +259,7 @@ func (b *RedisBackend) ListAll() ([]string, error) {
 	// First, enumerate all available keys in the root directory.
 	var cursor uint64
 	for {
-		nextKeys, nextCursor, err := b.redis.Scan(cursor, b.rootDir+"/*", defaultCount).Result()
+		nextKeys, nextCursor, err := b.redis.Scan(cursor, redisGlobEscaper.Replace(b.rootDir)+"/*", defaultCount).Result()
 		if err != nil {
 			return nil, err
 		}
